@@ -308,10 +308,106 @@ pub fn cases(tier: Tier) -> Vec<GCase> {
             );
         }
     }
+    // non-initial states, constants: every sequence (quick: length <= 2, thorough: <= 3) of
+    // constant-carrying operations with the same and with other constants, followed by a
+    // constant-carrying component whose documented relation must still hold exactly; the
+    // history's own allocations belong to the adversary too
+    {
+        #[derive(Clone, Copy, Debug)]
+        enum H {
+            EqConst(u64, Option<u64>),
+            Const(u64),
+            Public(u64),
+            AddConst(u64),
+        }
+        fn apply(c: &mut Composer, h: H) {
+            match h {
+                H::EqConst(k, pi) => {
+                    let w = c.append_witness(fe(k + pi.unwrap_or(0)));
+                    c.assert_equal_constant(w, fe(k), pi.map(fe));
+                }
+                H::Const(k) => {
+                    c.append_constant(fe(k));
+                }
+                H::Public(v) => {
+                    c.append_public(fe(v));
+                }
+                H::AddConst(k) => {
+                    let a = c.append_witness(fe(2));
+                    c.gate_add(Constraint::new().left(1).constant(fe(k)).a(a));
+                }
+            }
+        }
+        let alphabet: Vec<H> = vec![
+            H::EqConst(5, Some(4)),
+            H::EqConst(5, Some(0)),
+            H::EqConst(5, None),
+            H::EqConst(9, Some(4)),
+            H::EqConst(9, None),
+            H::EqConst(0, Some(5)),
+            H::EqConst(1, Some(4)),
+            H::Const(5),
+            H::Const(9),
+            H::Public(5),
+            H::Public(9),
+            H::AddConst(5),
+        ];
+        let max_len = tier.pick(2usize, 3usize);
+        let mut histories: Vec<Vec<H>> = vec![vec![]];
+        let mut frontier: Vec<Vec<H>> = vec![vec![]];
+        for _ in 0..max_len {
+            let mut next = vec![];
+            for h in &frontier {
+                for a in &alphabet {
+                    let mut n = h.clone();
+                    n.push(*a);
+                    next.push(n);
+                }
+            }
+            histories.extend(next.iter().cloned());
+            frontier = next;
+        }
+        for hist in histories.iter().skip(1) {
+            let hname = hist.iter().map(|h| format!("{:?}", h)).collect::<Vec<_>>().join(",");
+            let with = |g: Gadget| {
+                let hist = hist.clone();
+                let mut g = g.with_prelude(&hname, move |c, _| {
+                    for h in &hist {
+                        apply(c, *h);
+                    }
+                    Ok(())
+                });
+                g.explore_prelude = true;
+                g
+            };
+            let mut add = |g: Gadget, e: Expect, class: &str| {
+                let mut c = GCase::new(with(g), e, class);
+                c.confirm = true;
+                out.push(c);
+            };
+            for k in [5u64, 9, 0, 1] {
+                add(Gadget::new(&format!("append_constant({})", k), vec![], move |c, _| Ok(vec![c.append_constant(fe(k))])), Expect::Sat(vec![fe(k)]), "append_constant/after-constants");
+            }
+            for v in [5u64, 9] {
+                add(Gadget::new(&format!("append_public({})", v), vec![], move |c, _| Ok(vec![c.append_public(fe(v))])), Expect::Sat(vec![fe(v)]), "append_public/after-constants");
+            }
+            for (x, k, pi) in [(9u64, 5u64, Some(4u64)), (5, 5, Some(4)), (5, 5, None), (9, 5, None), (5, 5, Some(0)), (9, 9, None)] {
+                let holds = x == k + pi.unwrap_or(0);
+                add(
+                    Gadget::new(&format!("assert_equal_constant(x={},{},{:?})", x, k, pi), vec![fe(x)], move |c, ins| {
+                        c.assert_equal_constant(ins[0], fe(k), pi.map(fe));
+                        Ok(vec![])
+                    }),
+                    if holds { Expect::Sat(vec![]) } else { Expect::Unsat },
+                    "assert_equal_constant/after-constants",
+                );
+            }
+        }
+    }
     // non-initial states: every named-component case once more after the component was
     // already applied to the same witnesses (quick: every 7th case)
     let stride = tier.pick(7, 1);
-    let again: Vec<GCase> = out.iter().filter(|c| !c.g.name.starts_with("general")).step_by(stride).map(|c| { let mut d = c.after_self_call(); d.confirm = true; d }).collect();
+    let again: Vec<GCase> = out.iter().filter(|c| !c.g.name.starts_with("general") && c.g.prelude.is_none()).step_by(stride).map(|c| { let mut d = c.after_self_call(); d.confirm = true; d }).collect();
     out.extend(again);
     out
 }
